@@ -103,3 +103,194 @@ def c15(ctx):
 def c16(ctx):
     codec_check(ctx, C16_FNS, ["Inv_C16"],
                 "one evaluation = one call of arr_to_u64/arr_to_i64/arr_to_f64 on a slice, or one element written by the real TagWriter (payload bytes compared with the Payload reference encoders, value read back with the real iterator); distinct = distinct (function, input) pairs")
+
+
+# --------------------------------------------------------------------------- reader properties
+import concurrent.futures
+import hashlib
+import re
+
+SIGMA12 = "{128, 129, 130, 131, 132, 137, 139, 236, 255, 64, 0, 144}"
+
+
+def mc_reader(ctx, mode, maxlen, allow, buf, eof, maxes, name=None, invariants=None, workers=12):
+    consts = {"MaxLen": maxlen, "Sigma": SIGMA12, "AllowSets": allow, "EofCloses": eof}
+    extra = "CONSTANT BufSets <- %s\nCONSTANT Maxes <- %s\n" % (buf, maxes)
+    inv = invariants or ["TypeOK", "Inv_" + mode]
+    # (-coverage makes TLC run out of memory on this module at start-up; outcome coverage is measured on the Gen run instead)
+    r = C.tlc_mc(name or (ctx.prop + "_MC_Reader"), "MC_Reader", cfg(constants=consts, invariants=inv, extra=extra), workers=workers, timeout=3000, heap="12g", coverage=False)
+    ctx.add_mc(r)
+    if r["depth"] < maxlen + 4:
+        raise C.ToolError("vacuity: MC_Reader explored no complete parse (depth %d)" % r["depth"])
+    return r
+
+
+def mc_reader_gen(ctx, maxlen, allow, eof):
+    """Specification -> implementation: TLC prints every terminal behaviour of the bounded model
+    (input, configuration); the harness replays them into the real iterator and the recorded
+    trace is validated with every field bound (Level 1) and against the property."""
+    consts = {"MaxLen": maxlen, "Sigma": SIGMA12, "AllowSets": allow, "EofCloses": eof}
+    extra = "CONSTANT BufSets <- Buf_noneB\nCONSTANT Maxes <- Maxes_2\n"
+    r = C.tlc_mc(ctx.prop + "_MC_Reader_Gen", "MC_Reader", cfg(constants=consts, invariants=["Emit"], extra=extra), workers=4, coverage=False)
+    out = open(os.path.join(C.WORK, "mc", ctx.prop + "_MC_Reader_Gen", ctx.prop + "_MC_Reader_Gen.out")).read()
+    path = ctx.path("replay_in.ndjson")
+    n = 0
+    with open(path, "w") as f:
+        kinds = {}
+        for m in re.finditer(r'"<<\\"REPLAY\\", <<([\d, ]*)>>, (TRUE|FALSE), (TRUE|FALSE), (TRUE|FALSE), (TRUE|FALSE), \{([^}]*)\}, <<(.*?)>>>>"', out):
+            for k in re.findall(r'\\"(\w+)\\"', m.group(7)):
+                kinds[k] = kinds.get(k, 0) + 1
+            inp = [int(x) for x in m.group(1).split(",") if x.strip()]
+            buf = [[int(y) for y in x.strip("<> ").split(",") if y.strip()] for x in re.findall(r"<<[\d, ]*>>", m.group(6))]
+            f.write(json.dumps({"input": inp, "allowId": m.group(2) == "TRUE", "allowHier": m.group(3) == "TRUE", "allowSize": m.group(4) == "TRUE",
+                                "eofClose": m.group(5) == "TRUE", "buffered": buf, "max": 2}) + "\n")
+            n += 1
+    if n == 0:
+        raise C.ToolError("MC_Reader_Gen printed no REPLAY behaviours")
+    ctx.extra["replayed_model_behaviours"] = n
+    ctx.extra["model_outcome_coverage"] = kinds
+    missing = [k for k in ("start", "end", "elem", "eof", "bad_id", "bad_data", "too_big", "none") if k not in kinds]
+    if missing:
+        raise C.ToolError("vacuity: outcomes never produced by the bounded model: %s" % missing)
+    tf = ctx.path("replay.ndjson")
+    C.run_harness(["reader:replay", "--in", path, "--out", tf])
+    return tf
+
+
+def count_runs(ctx, tf, want_samples=2):
+    """evaluations = runs of the real iterator; distinct = distinct (input, cfg, schedule) with >= 1 item or error"""
+    cur = None
+    nres = 0
+    ns = 0
+    with open(tf) as f:
+        for line in f:
+            if '"ev":"run"' in line:
+                if cur is not None:
+                    ctx.count(cur, nontrivial=nres > 1)
+                e = json.loads(line)
+                cur = json.dumps([e["input"], e["cfg"], e["sched"]])
+                nres = 0
+                if ns < want_samples and len(e["input"]) > 3 and len(ctx.samples) < 6:
+                    ctx.samples.append({"run": e["tag"], "input": e["input"][:64], "cfg": e["cfg"], "sched": e["sched"][:16]})
+                    ns += 1
+            elif '"ev":"next"' in line or '"ev":"recover"' in line:
+                nres += 1
+                m = re.search(r'"(?:kind|ekind)":"(\w+)"', line)
+                k = m.group(1) if m else ("none" if '"res":"none"' in line else "other")
+                oc = ctx.extra.setdefault("trace_outcome_coverage", {})
+                oc[k] = oc.get(k, 0) + 1
+    if cur is not None:
+        ctx.count(cur, nontrivial=nres > 1)
+
+
+def reader_check(ctx, mode, mc_args, drivers, gen_args=None, l1=True, thorough_mc_args=None, need=()):
+    args = mc_args if ctx.quick or not thorough_mc_args else thorough_mc_args
+    if args:
+        mc_reader(ctx, mode, *args)
+    traces = []
+    if gen_args:
+        traces.append(("replay", mc_reader_gen(ctx, *gen_args)))
+    for d in drivers:
+        tf = ctx.path(d.replace(":", "_") + ".ndjson")
+        C.run_harness([d, "--out", tf, "--seed", ctx.seed, "--tier", ctx.tier], timeout=3000)
+        traces.append((d, tf))
+    for d, tf in traces:
+        count_runs(ctx, tf)
+    missing = [k for k in need if ctx.extra.get("trace_outcome_coverage", {}).get(k, 0) == 0]
+    if missing:
+        raise C.ToolError("vacuity: outcomes never observed in the recorded traces: %s" % missing)
+    # verdicts (property specification) and, alongside, full conformance with Level 1 (statistic only)
+    jobs = []
+    with concurrent.futures.ThreadPoolExecutor(max_workers=5) as ex:
+        for d, tf in traces:
+            nm = "%s_%s" % (ctx.prop, d.replace(":", "_"))
+            env = {"MODE": mode}
+            env.update({dv: "1" for dv in ctx.known})
+            jobs.append(("verdict", d, tf, ex.submit(C.tlc_trace, nm, "ReaderTrace", tf, None, ctx.devs, 3000, "4g", env)))
+            if l1:
+                jobs.append(("l1", d, tf, ex.submit(C.tlc_trace, nm + "_L1", "ReaderTrace", tf, None, "", 3000, "4g", {"MODE": "L1"})))
+    div = 0
+    for kind, d, tf, fut in jobs:
+        tr = fut.result()
+        if kind == "verdict":
+            ctx.absorb(tr, tf)
+        else:
+            if not tr["consumed"]:
+                raise C.ToolError("L1 validation did not consume " + tf)
+            div += len(tr["rejects"])
+            ctx.extra.setdefault("level1_conformance", []).append({"trace": d, "events": tr["states"] - 1, "model_divergence": len(tr["rejects"]),
+                                                                   "first": tr["rejects"][:2]})
+    ctx.extra["model_divergence_total"] = div
+    ctx.assumptions += [
+        "verdicts come from the property specification spec/props/P_%s.tla evaluated by TLC on recorded events (mode %s of trace/ReaderTrace.tla); Level 1 (ReaderCore) conformance is reported as a statistic (model_divergence), never as a violation" % (mode, mode),
+        "bounded model: every input over a 12-symbol alphabet up to the stated length on schema S3; beyond that the drivers sample (seeded by VERIF_SEED)",
+        "the harness records results of the public API (plus verif-hooks state snapshots) without post-processing",
+    ]
+
+
+@prop("C03")
+def c03(ctx):
+    reader_check(ctx, "C03", (4, "{0, 7}", "Buf_noneB", "{TRUE}", "Maxes_2"),
+                 ["reader:docs", "reader:mutate", "reader:buf", "reader:total"], gen_args=(3, "{0, 7}", "{TRUE}"),
+                 thorough_mc_args=(5, "{0, 7}", "Buf_noneB", "{TRUE}", "Maxes_2"))
+    ctx.rule = "one evaluation = one run of the real TagIterator (input, configuration, schedule) whose every item is re-derived by the specification from the bytes at its offset (id, decoded value, tiling cursor, End/Full offsets); distinct = distinct (input, cfg, schedule); non-trivial = the run produced at least one item or error"
+
+
+@prop("C05")
+def c05(ctx):
+    reader_check(ctx, "C05", (4, "{0, 7}", "Buf_noneB", "{TRUE, FALSE}", "Maxes_2"),
+                 ["reader:total", "reader:mutate", "reader:sched_smallcap"], gen_args=(3, "{0, 5, 7}", "{TRUE, FALSE}"),
+                 thorough_mc_args=(5, "{0, 7}", "Buf_noneB", "{TRUE, FALSE}", "Maxes_2"))
+    ctx.rule = "one evaluation = one run (call history of next()/try_recover() over one input/configuration/read schedule incl. injected source errors) under catch_unwind; the monitor reads result classes, counts, the io string; distinct as for C03"
+
+
+@prop("C06")
+def c06(ctx):
+    reader_check(ctx, "C06", (4, "{0}", "Buf_none", "{TRUE, FALSE}", "Maxes_both"),
+                 ["reader:docs", "reader:mutate", "reader:suffixes", "reader:enc_nested"], gen_args=(3, "{0}", "{TRUE, FALSE}"),
+                 thorough_mc_args=(5, "{0}", "Buf_none", "{TRUE, FALSE}", "Maxes_2"))
+    ctx.rule = "one evaluation = one strict run judged by the shadow-stack monitor P_C06 (well-nested, chain valid per declared path, contained in known-size masters, End exactly at exhaustion, Ends at end of input); distinct as for C03"
+
+
+@prop("C07")
+def c07(ctx):
+    reader_check(ctx, "C07", (4, "{0, 2}", "Buf_none", "{TRUE}", "Maxes_2"),
+                 ["reader:enc_nested", "reader:enc", "reader:mutate"], gen_args=(3, "{0, 2}", "{TRUE}"),
+                 thorough_mc_args=(5, "{0, 2}", "Buf_none", "{TRUE}", "Maxes_2"))
+    ctx.rule = "one evaluation = one run; cases of the enc drivers hold one all-known-size run plus one run per (sampled) subset of masters encoded with unknown size, compared at the end of the case; the monitor checks every End against ClosedBy / exhaustion / EOF; non-trivial = run with >= 1 result"
+
+
+@prop("C08")
+def c08(ctx):
+    reader_check(ctx, "C08", (4, "{0, 7}", "Buf_some", "{TRUE}", "Maxes_2"),
+                 ["reader:buf"], gen_args=None,
+                 thorough_mc_args=(5, "{0}", "Buf_some", "{TRUE}", "Maxes_2"))
+    ctx.rule = "one evaluation = one run; each case holds the unbuffered run and one run per (sampled) subset of the document's master ids as buffered set over valid / mutated / truncated inputs; relation P_C08 at the end of the case"
+
+
+@prop("C12")
+def c12(ctx):
+    reader_check(ctx, "C12", (4, "{0}", "Buf_none", "{TRUE}", "Maxes_none"),
+                 ["reader:cut"], gen_args=None,
+                 thorough_mc_args=(5, "{0}", "Buf_none", "{TRUE}", "Maxes_none"))
+    ctx.rule = "one evaluation = one run; each case holds the run over a whole valid document and one run per cut position (all cuts for small documents, boundaries +-1 and random cuts otherwise) under varying capacity and chunking; relation P_C12 (complete prefix, then Ends or an accurate UnexpectedEOF); non-trivial = run with >= 1 result"
+
+
+@prop("C13")
+def c13(ctx):
+    reader_check(ctx, "C13", (4, "{0, 1, 2, 3, 4, 5, 6, 7}", "Buf_none", "{TRUE}", "Maxes_2"),
+                 ["reader:tol"], gen_args=None,
+                 thorough_mc_args=(5, "{0, 1, 2, 4, 7}", "Buf_none", "{TRUE}", "Maxes_2"))
+    ctx.rule = "one evaluation = one run; each case runs one input (valid document with one injected fault of a class, or mutated document) under all 8 tolerance sets (and limits); relations P_C13 at the end of the case"
+
+
+@prop("C14")
+def c14(ctx):
+    reader_check(ctx, "C14", None, ["reader:junk", "reader:total"], gen_args=None)
+    ctx.rule = "one evaluation = one run; junk cases pair the run over a valid known-size document with a next/try_recover run over the document with junk inserted at a tag boundary; total cases interleave next/try_recover arbitrarily (monotone, no panic, fails only by eof/io)"
+
+
+@prop("C04")
+def c04(ctx):
+    reader_check(ctx, "C04", None, ["reader:sched", "reader:sched_smallcap", "reader:cut"], gen_args=None)
+    ctx.rule = "one evaluation = one run; each case holds the reference run (whole input at once) and runs under read schedules (every partition for inputs <= 8 bytes quick / 11 thorough, random otherwise), capacities 0..4096 and temporary EOFs at tag boundaries; relation P_C04 (equal results incl. first error)"
